@@ -85,7 +85,7 @@ func (p *scriptPolicy) Pick(gocql.ExecutableQuery) gocql.NextHost {
 			if h != nil {
 				return sel{h}
 			}
-			// a host the session never learned about cannot be offered; the model line lists it as conn=0
+			// not a host of the cluster: a SelectedHost without HostInfo (the model line lists it as up=0)
 			return sel{nil}
 		}
 		return nil
@@ -281,16 +281,18 @@ type scenario struct {
 	kind   string // q | bl | bu | bc
 	ctor   string // s: Session.Query / Session.NewBatch ; n: package-level NewBatch (no session defaults)
 	policy string
-	polAt  string   // s: session level ; q: statement level ; o: statement level over a session-level decoy
-	obs    string   // - | s | q | o
-	idem   string   // 0 | 1 | m (batch with mixed entries: not idempotent)
-	sp     string   // - | K : SimpleSpeculativeExecution{K, 1h}
-	ctx    string   // - | c | d | p | pd
-	cons   int      // initial consistency
-	api    string   // e: Exec / ExecuteBatch ; i: Iter().Close()
-	reps   int      // how often the same statement object is executed
-	hosts  []string // "id:up:conn" ; ip = 10.0.0.<id>; 1:1 reachable, 0:0 unreachable and marked down (no pool), 1:0 unreachable
-	// but not convicted (up, pool without connection), 1:f rejected by the HostFilter yet offered by the policy (up, no pool)
+	polAt  string // s: session level ; q: statement level ; o: statement level over a session-level decoy
+	obs    string // - | s | q | o
+	idem   string // 0 | 1 | m (batch with mixed entries: not idempotent)
+	sp     string // - | K : SimpleSpeculativeExecution{K, 1h}
+	ctx    string // - | c | d | p | pd
+	cons   int    // initial consistency
+	api    string // e: Exec / ExecuteBatch ; i: Iter().Close()
+	reps   int    // how often the same statement object is executed
+	// "id:up:conn", ip = 10.0.0.<id>: 1:1 reachable; 1:0 unreachable and not convicted, 1:c unreachable and convicted (either way:
+	// up, pool without a connection — without a control connection a conviction cannot mark the host down); 1:f rejected by
+	// the HostFilter yet offered by the policy (up, no pool); 0:0 the policy offers a SelectedHost without HostInfo
+	hosts    []string
 	outcomes []string // o | l | e<k>[variant] | e10
 }
 
@@ -490,18 +492,22 @@ func runEx(d scenario) (answer string) {
 			answer = fmt.Sprintf("crash:%v", e)
 		}
 	}()
-	var ips, order []string
+	var ips, order, known []string
 	dead, spare, filtered := map[string]bool{}, map[string]bool{}, map[string]bool{}
 	for _, h := range d.hosts {
 		p := strings.Split(h, ":")
 		ip := "10.0.0." + p[0]
 		order = append(order, ip)
-		switch {
-		case p[1] == "1" && p[2] == "1":
+		if p[1] != "1" {
+			continue // not a host of the cluster: the policy will offer a SelectedHost whose Info() is nil
+		}
+		known = append(known, ip)
+		switch p[2] {
+		case "1":
 			ips = append(ips, ip)
-		case p[1] == "1" && p[2] == "f":
+		case "f":
 			filtered[ip] = true
-		case p[1] == "1":
+		case "0":
 			dead[ip], spare[ip] = true, true
 		default:
 			dead[ip] = true
@@ -510,7 +516,7 @@ func runEx(d scenario) (answer string) {
 	// one more host, reachable but never offered by the host selection policy: the session can always be created,
 	// also when none (or none reachable) of the scripted hosts exist
 	const anchor = "10.0.0.250"
-	all := append(append([]string{}, order...), anchor)
+	all := append(append([]string{}, known...), anchor)
 	cl := memcluster.NewCluster(4, all...)
 	var reqNo int64
 	var amu sync.Mutex
@@ -1062,8 +1068,10 @@ func genScenario(r *vh.Rng) scenario {
 	for j := 1; j <= nh; j++ {
 		st := "1:1"
 		switch r.Intn(16) {
-		case 0, 1:
+		case 0:
 			st = "0:0"
+		case 1:
+			st = "1:c"
 		case 2:
 			st = "1:0"
 		case 3:
